@@ -210,6 +210,11 @@ def gen_step(rng, p, pipe, group, idx, targets, handlers, later_pipes, depth_tag
     if rng.random() < p['p_onerror']:
         st['onError'] = rng.choice(['custom {n}', {'d': [['code', 7], ['at', '{word}']]}, 'plain', '{word}',
                                     {'l': ['{n}', 1]}, '{missing_key}' if rng.random() < 0.4 else 'x', 0, ''])
+        live = [{'foreach': 'i', 'while': 'whileCounter', 'retry': 'retryCounter'}[lp] for lp in loops] + ['cnt']
+        if rng.random() < 0.5:
+            k = rng.choice(live)
+            st['onError'] = rng.choice(['at {%s}' % k, {'d': [['item', '{%s}' % k], ['n', '{n}']]},
+                                        {'l': ['{%s}' % k, 'braces {{kept}}']}])
     inn = [['ptag', tag]]
     if rng.random() < 0.5:
         inn.append(['pwatch', {'l': rng.sample(['cnt', 'flag', 'arg1', 'call', 'out1', 'i', 'set', 'word', 'shared'],
@@ -220,7 +225,8 @@ def gen_step(rng, p, pipe, group, idx, targets, handlers, later_pipes, depth_tag
         inn.append([rng.choice(['cnt', 'flag', 'word']), rng.choice([5, True, 'over'])])   # overrides
     if body == 'fail':
         cfg = [['err', rng.choice(ERRS)],
-               ['msg', rng.choice(['boom', 'failed at {ptag}', 'i={i}' if 'foreach' in loops else 'n={n}', 'x'])]]
+               ['msg', rng.choice(['boom', 'failed at {ptag}', 'i={i}' if 'foreach' in loops else 'n={n}', 'x',
+                                   'payload {{n}}' if rng.random() < 0.7 else 'lone {{ brace'])]]
         if rng.random() < p['p_fail_when']:
             conds = [['cmp', 'lt', name('cnt'), ['int', rng.choice([1, 2])]], name('flag'), ['not', name('flag')]]
             if 'retry' in loops:
@@ -353,6 +359,41 @@ def gen_case(rng, profile=None):
     elif rng.random() < 0.1 and main_handlers:
         # partially given: only a handler, groups defaulted
         case[rng.choice(['success', 'failure'])] = rng.choice(main_handlers)
+    return case
+
+
+def main_parser_failure(rng, case):
+    """the top-level pipeline's context parser fails (mostly); its failure handler is a full group
+    with a control-of-flow step in the middle (call / jump / switch / stops / failing step)."""
+    groups = case['lib'][0][1]
+    if not any(g == 'context_parser' for g, _ in groups):
+        groups.insert(0, ['context_parser', None])
+    hname = case.get('failure') or 'on_failure'
+    handler = [{'body': 'probe', 'in': [['ptag', f'main/{hname}/0']]}]
+    kind = rng.choice(['call', 'call', 'jump', 'switch', 'stoppipeline', 'stopstepgroup', 'stop', 'fail', 'probe'])
+    tag = ['ptag', f'main/{hname}/1']
+    if kind == 'call':
+        handler.append({'body': 'call', 'in': [tag, ['call', rng.choice(['gz', '{grp}', {'d': [['groups', {'l': ['gz']}]]}])]]})
+    elif kind == 'jump':
+        handler.append({'body': 'jump', 'in': [tag, ['jump', 'gz']]})
+    elif kind == 'switch':
+        handler.append({'body': 'switch', 'in': [tag, ['switch', {'l': [{'d': [['case', '{flag}'], ['call', 'gz']]},
+                                                                        {'d': [['default', 'gz']]}]}]]})
+    elif kind == 'fail':
+        handler.append({'body': 'fail', 'in': [tag, ['vfail', {'d': [['err', 'RuntimeError'], ['msg', 'handler']]}]]})
+    elif kind != 'probe':
+        handler.append({'body': kind, 'in': [tag]})
+    handler.append({'body': 'probe', 'in': [['ptag', f'main/{hname}/2']]})
+    if not any(g == hname for g, _ in groups):
+        groups.append([hname, handler])
+    else:
+        for gs in groups:
+            if gs[0] == hname:
+                gs[1] = handler
+    if not any(g == 'gz' for g, _ in groups):
+        groups.append(['gz', [{'body': 'probe', 'in': [['ptag', 'main/gz/0']]}]])
+    groups.sort(key=lambda gs: gs[0] == 'gz')
+    case['args_in'] = rng.choice([['fail'], ['fail', 'x'], ['fail'], ['ok']])
     return case
 
 
